@@ -1,0 +1,10 @@
+//go:build verif
+
+package docker
+
+// Contracts for property C36: the docker command constructor hands the
+// argument vector it was given to exec.CommandContext unchanged.
+// Comment-only file, compiled only under the "verif" build tag.
+
+//@ func Command
+//@   at call exec.CommandContext assert[passthrough] arg2 == args
